@@ -281,6 +281,29 @@ func runC02(r *ev.Run) {
 				m.remove(id)
 				removals++
 				r.Count("ops:remove", 1)
+				if rng.IntN(3) == 0 {
+					// update = remove + add of the same id (no Flush), usually far away from the old vector
+					v := vg.fresh()
+					for j := range v {
+						v[j] = -3*m.raw[id][j] + v[j]
+					}
+					nz := false
+					for _, x := range v {
+						if x != 0 {
+							nz = true
+						}
+					}
+					if !nz {
+						v[0] = 1
+					}
+					hist = append(hist, histOp{Op: "re-add", ID: id, Vec: cloneF32(v)})
+					if err := s.idx.Add(*comet.NewVectorNodeWithID(id, cloneF32(v))); err != nil {
+						rep(kind+".readd-error", fmt.Sprintf("re-add of removed id %d: %v", id, err))
+						return
+					}
+					m.add(id, v)
+					r.Count("ops:re-add-removed-id", 1)
+				}
 			default:
 				// flush-invariance of the exhaustive kinds
 				var before []*listing
